@@ -258,3 +258,17 @@ F("ARGPARSE-wrapped-return-prose", ALLP,
   "first line is read back as the return prose",
   ["RetKept.base", "RetKept.stop", "RetKept.ann", "ConfigTransparent"], when={"k": "argparse", "wrap": True, "ll": NARROW},
   ret=[True, ANY, "own", ANY, ANY, ANY])
+
+# ------------------------------------------------------------------------------------------------ locations (C15)
+F("LOCATE-function-target-never-replaced", ["C15"],
+  "RewriteAtQuery never replaces a whole function definition addressed by the location (visit_FunctionDef only handles "
+  "arguments); two tests of the suite (test__conform_filename_unchanged, test_ground_truth_changes) pin this, so it is not repaired",
+  ["ReplaceExact", "ReplacedFlag"], obs=[0, False], when={"k": "locate", "target": "func"})
+FIXED += [
+    "fixed: property=C02 0e3510b emit.class_ raised AttributeError for an int default under a type mentioning str",
+    "fixed: property=C07 7b18d2a ir_merge: docstring/signature merge iterated a set difference (PYTHONHASHSEED-dependent order) and moved documented parameters first",
+    "fixed: property=C03 541ddb5 to_docstring dropped the :type line of an entry without prose and crashed on a prose-less return entry",
+    "fixed: property=C18 998fc6f DOCTRANS_LINE_LENGTH reached textwrap as a str: every emitter raised TypeError when it was set",
+    "fixed: property=C15 c54fd17 find_in_ast consumed a path segment at every FunctionDef it walked past (wrong node / not found)",
+    "fixed: property=C15 c37504d RewriteAtQuery matched by the non-unique two-segment _location (wrong or no node replaced below depth two)",
+]
